@@ -314,3 +314,30 @@ package shape
 //@   assert [column] val(fld(hid, 1)) == gx
 //@   assert [layer] vtile == vid(gv, gf)
 //@ end
+
+//@ -- C02 (ideal reals): neighbouring voxels report the same coordinate for the face they share - east/west faces the
+//@ -- same longitude, north/south faces the same (cut) latitude, top/bottom faces the same altitude - so the voxels of
+//@ -- one zoom tile space without gaps or overlaps over ideal reals.  Bit-exact equality under rounding is NOT decided.
+//@ lemma C02_shared_faces_have_the_same_coordinate
+//@   props C02
+//@   float ideal
+//@   var h int
+//@   var x int
+//@   var y int
+//@   var v int
+//@   var f int
+//@   split h 1..35
+//@   split v 0..35
+//@   quickstride 16
+//@   assume 0 <= x && x + 1 < pow2(h) && 0 <= y && y + 1 < pow2(h) && 0 - pow2(v) <= f && f + 1 < pow2(v)
+//@   assume abs(cut10(rowlat(y, h))) <= 85.051128779799995527355349622666835784912109375 && abs(cut10(rowlat(y + 1, h))) <= 85.051128779799995527355349622666835784912109375 && abs(cut10(rowlat(y + 2, h))) <= 85.051128779799995527355349622666835784912109375
+//@   call lo := getAltitudeOnVerticalIndexAndZoom(f, v)
+//@   call hi := getAltitudeOnVerticalIndexAndZoom(f + 1, v)
+//@   call a := getVertexOnVoxelOffset(x, y, h, lo)
+//@   call e := getVertexOnVoxelOffset(x + 1, y, h, lo)
+//@   call s := getVertexOnVoxelOffset(x, y + 1, h, lo)
+//@   call u := getVertexOnVoxelOffset(x, y, h, hi)
+//@   assert [east-face] a[1].lon == e[0].lon && a[2].lon == e[3].lon && a[5].lon == e[4].lon && a[6].lon == e[7].lon
+//@   assert [south-face] a[2].lat == s[1].lat && a[3].lat == s[0].lat && a[6].lat == s[5].lat && a[7].lat == s[4].lat
+//@   assert [top-face] a[4].alt == u[0].alt && a[5].alt == u[1].alt && a[6].alt == u[2].alt && a[7].alt == u[3].alt
+//@ end
